@@ -8,6 +8,7 @@ package dastard
 // the stated trigger frame, trigger time as the block stamps assign it, labels of the channel.
 
 import (
+	"math"
 	"testing"
 
 	"pgregory.net/rapid"
@@ -19,6 +20,11 @@ func c01Gen(t *rapid.T) vPipeCase {
 	c.Npre, c.Nsamp = vGenLengths(t)
 	c.F0 = vGenF0(t)
 	c.PeriodNs = rapid.SampledFrom([]int64{1000, 6400, 320, 100000, 1001, 6399, 7}).Draw(t, "period")
+	if rapid.IntRange(0, 3).Draw(t, "oddrate") == 0 {
+		// a sample rate whose period is not a whole number of nanoseconds (the blocks carry the rounded period, as real sources make it)
+		c.RateHz = rapid.SampledFrom([]float64{30000, 70000, 110000, 1e6 / 3, 123456.789, 48000}).Draw(t, "ratehz")
+		c.PeriodNs = int64(math.Round(1e9 / c.RateHz))
+	}
 	total := rapid.IntRange(2*c.Nsamp, 40*c.Nsamp).Draw(t, "total")
 	if rapid.IntRange(0, 7).Draw(t, "shortstream") == 0 {
 		total = rapid.IntRange(1, 2*c.Nsamp).Draw(t, "totalshort")
